@@ -67,6 +67,17 @@ def source_read_differential(run, tier, seed, log=print):
         if binp is None:
             run.violation('libcheck-build', dict(config=name, stderr=err), no_input=True)
             continue
+        # the guards safe code relies on: every Source method on str / [u8] and their Deref wrappers, at every index up to
+        # len + 2 (is_boundary must refuse everything past the end: Lexer::bump has no other check before slicing)
+        sreqs = ['SRC ' + P.hexs(x) for x in srcs]
+        sout, _ = run_lib(binp, sreqs)
+        for rq in sreqs:
+            evals += 1
+            if sout.get(rq) != 'SAME':
+                bad += 1
+                run.violation('source-impl', dict(config=name, request=rq, observed=sout.get(rq),
+                                                  what='a Source method (len / read / slice / is_boundary / find_boundary) disagrees with std or with the base impl: spans accepted on that basis can lie outside the source'),
+                              key='srcimpl|%s' % rq)
         out, rc = run_lib(binp, reqs)
         for rq in reqs:
             evals += 1
